@@ -146,6 +146,12 @@ class FindInPaths(FindByGlob):
                     debug(f"Path did not generate sid: {path}")
                     continue
 
+                # The glob pattern can match more than the search: a value containing the filename separator
+                # (eg. node "rig_b") is also globbed by the pattern of another value (node "rig").
+                if any(value not in ("*", ">") and sid.get(key) != value for key, value in search.fields.items()):
+                    debug(f"Found Sid does not match the search. Found: {sid.uri} -- Search: {search.uri}")
+                    continue
+
                 found_paths.add(path)
                 if as_sid:
                     yield sid
